@@ -308,6 +308,13 @@ class JsonStub:
 
 def _json_loads_sym(s):
     ctx = Ctx.cur
+    from .codecs_model import _pinned
+    try:
+        vals = _pinned(s)           # content fully determined by the path condition: real json
+    except Unmodelled:
+        vals = None
+    if vals is not None:
+        return _json.loads(''.join(map(chr, vals)) if s.kind is str else bytes(vals))
     ctx.flag('stubbed:json.loads')
     k = ctx.choose(0, 2, 'json.loads')
     if k == 0:
